@@ -17,7 +17,7 @@ inductive APc where
   | idle                 -- top of the loop / between accepts
   | counting (c : Nat)   -- `accept()` returned connection c, `++_numClients` not yet done
   | inline (c : Nat)     -- sequential mode: serving connection c inside the loop
-  | exited               -- `_running = false; break`
+  | exited               -- `_running = false; break` (the thread itself is not finished yet: see `threadDone`)
 deriving Repr, DecidableEq, Inhabited
 
 inductive CPc where
@@ -37,6 +37,9 @@ inductive Act where
   | hClose (c : Nat)
   | hDec (c : Nat)
   | check (seen : Bool)      -- the loop's test of `_requestStop`, with the value it observed
+  | loopFail                 -- `waitInput` returned a negative value (select error / closed socket): the loop gives up
+  | loopEnd                  -- the accept thread finishes: `Thread::begin` writes `_threadFinished` into the
+                             --   `SockServerThread` object that the server owns and frees in its destructor
   | reqStop
   | readRunning
   | readNum
@@ -54,13 +57,16 @@ structure Cfg where
   st : Nat → Nat
   serveBegins : Nat → Nat
   serveEnds : Nat → Nat
-  bad : Bool               -- some thread used the server object after its destruction
+  bad : Bool               -- some thread used the server object (or what it owns) after its destruction
+  threadDone : Bool        -- the accept thread has completely finished
+  joins : Bool             -- does `~SocketServer` wait for the accept thread (`join`) before freeing it?
 
 def upd {α} (f : Nat → α) (k : Nat) (v : α) : Nat → α := fun j => if j = k then v else f j
 
-def init (n : Nat) (sequential : Bool) : Cfg :=
+def init (n : Nat) (sequential : Bool) (joins : Bool := true) : Cfg :=
   { n := n, sequential := sequential, reqStop := false, running := true, num := 0, apc := APc.idle,
-    cpc := CPc.running, st := fun _ => 0, serveBegins := fun _ => 0, serveEnds := fun _ => 0, bad := false }
+    cpc := CPc.running, st := fun _ => 0, serveBegins := fun _ => 0, serveEnds := fun _ => 0, bad := false,
+    threadDone := false, joins := joins }
 
 /-- may the handler steps of connection `c` be taken now? (concurrent: by its own thread, any time;
     sequential: only by the accept loop while it is serving `c` inline) -/
@@ -77,10 +83,12 @@ def enabled (s : Cfg) : Act → Bool
   | Act.hClose c => c < s.n && s.st c == 5 && handlerTurn s c
   | Act.hDec c => c < s.n && s.st c == 6 && handlerTurn s c
   | Act.check seen => s.apc == APc.idle && (!seen || s.reqStop)
+  | Act.loopFail => s.apc == APc.idle
+  | Act.loopEnd => s.apc == APc.exited && !s.threadDone
   | Act.reqStop => s.cpc == CPc.running
   | Act.readRunning => s.cpc == CPc.waiting
   | Act.readNum => s.cpc == CPc.sawStopped
-  | Act.destroy => s.cpc == CPc.returned
+  | Act.destroy => s.cpc == CPc.returned && (!s.joins || s.threadDone)   -- `join()` returns only when the thread has ended
 
 /-- steps that use the server object (its members or its virtual `serve`) -/
 def touchesServer : Act → Bool
@@ -106,6 +114,8 @@ def step (s : Cfg) (a : Act) : Cfg :=
   | Act.hClose c => { s with st := upd s.st c 6 }
   | Act.hDec c => { s with st := upd s.st c 7, num := s.num - 1, apc := if s.sequential then APc.idle else s.apc }
   | Act.check seen => if seen then { s with running := false, apc := APc.exited } else s
+  | Act.loopFail => { s with running := false, apc := APc.exited }
+  | Act.loopEnd => { s with threadDone := true }
   | Act.reqStop => { s with reqStop := true, cpc := CPc.waiting }
   | Act.readRunning => if s.running then s else { s with cpc := CPc.sawStopped }
   | Act.readNum => if s.num > 0 then { s with cpc := CPc.waiting } else { s with cpc := CPc.returned }
